@@ -129,6 +129,10 @@ template <class T> static void oneTriple (const OrdInfo& o, T x, T y, T z, bool 
         if (!(c.x == x && c.y == y && c.z == z && c.order () == ord)) fail<T> ("ctorXYZLayout", o, x, y, z, 1, 0);
         if (!(c3.x == x && c3.y == y && c3.z == z && c3.order () == ord)) fail<T> ("ctorXYZLayoutScalars", o, x, y, z, 1, 0);
         if (!(ci.x == x && ci.y == y && ci.z == z && ci.order () == ord)) fail<T> ("ctorIJKLayout", o, x, y, z, 1, 0);
+        E cc (e), ca (ord == E::XYZ ? E::ZYX : E::XYZ);
+        ca = e;
+        if (!(cc.x == x && cc.y == y && cc.z == z && cc.order () == ord && ca.x == x && ca.y == y && ca.z == z && ca.order () == ord))
+            fail<T> ("copy", o, x, y, z, 1, 0);
         Vec3<T> w = c.toXYZVector ();
         if (!(w.x == v.x && w.y == v.y && w.z == v.z)) fail<T> ("toXYZVector-inverse", o, x, y, z, 1, 0);
         int ai, aj, ak, mi, mj, mk;
@@ -199,6 +203,16 @@ template <class T> static void nearTriple (const OrdInfo& o, T x, T y, T z, T tx
     note ("makeNear_excess_over_pi_in_epsf_amax", (double) ((w - PI_LD) / (epsf * amax)));
     if (!(w <= lim)) fail<T> ("makeNear-within-pi", o, x, y, z, (double) w, (double) lim);
     if (n.order () != ord) fail<T> ("makeNear-order", o, x, y, z, 1, 0);
+    // target given in a DIFFERENT order (makeNear converts it with the re-ordering constructor): rotation still unchanged
+    {
+        const OrdInfo& other = ORD[rng () % 24];
+        E t2 (tx, ty, tz, (typename E::Order) other.code), n2 = e;
+        n2.makeNear (t2);
+        LD d4 = dist (oracle (o, n2.x, n2.y, n2.z), before);
+        note ("makeNear_other_order_rotation_over_epsf_amax", (double) (d4 / (epsf * amax)));
+        if (!(d4 <= b)) fail<T> ("makeNear-rotation-other-order", o, x, y, z, (double) d4, (double) b, other.name);
+        if (n2.order () != ord) fail<T> ("makeNear-order", o, x, y, z, 1, 0, other.name);
+    }
     // nearestRotation on XYZ-layout vectors
     Vec3<T> xyz = e.toXYZVector (), txyz = t.toXYZVector (), s = xyz;
     E::nearestRotation (s, txyz, ord);
